@@ -8,6 +8,7 @@
 #include <string>
 #include <vector>
 #include <thread>
+#include <atomic>
 #include <thread>
 #include <functional>
 #include <map>
@@ -29,7 +30,14 @@ template <class F>
 static inline void team(int T, F fn)
 {
     std::vector<std::thread> th;
-    for (int t = 0; t < T; t++) th.emplace_back([&fn, t]() { fn(t); });
+    std::atomic<int> arrived(0);
+    // released together: every member spins until all T have started (bounded: falls through after ~2 s on a starved machine)
+    for (int t = 0; t < T; t++)
+        th.emplace_back([&fn, &arrived, T, t]() {
+            arrived.fetch_add(1);
+            for (long spin = 0; arrived.load() < T && spin < 400000000L; spin++) { }
+            fn(t);
+        });
     for (auto &x : th) x.join();
 }
 
